@@ -49,11 +49,11 @@ var docWrites = map[string][]string{
 	"XmlCheckIsValid": {"xmlCheckIsValid"}, "LeafUseDotNotation": {"useDotNotation"},
 	"DisableTrimWhiteSpace": {"disableTrimWhiteSpace", "trimRunes"}, "XMLEscapeChars": {"xmlEscapeChars"},
 	"XMLEscapeCharsDecoder": {"xmlEscapeCharsDecoder", "xmlEscapeChars"},
-	"SetAttrPrefix": {"attrPrefix", "lenAttrPrefix"}, "PrependAttrWithHyphen": {"attrPrefix", "lenAttrPrefix"},
+	"SetAttrPrefix":         {"attrPrefix", "lenAttrPrefix"}, "PrependAttrWithHyphen": {"attrPrefix", "lenAttrPrefix"},
 	"SetFieldSeparator": {"fieldSep"}, "SetArraySize": {"defaultArraySize"}, "SetCheckTagToSkipFunc": {"checkTagToSkip"},
 	"XmlGoEmptyElemSyntax": {"useGoXmlEmptyElemSyntax"}, "XmlDefaultEmptyElemSyntax": {"useGoXmlEmptyElemSyntax"},
 	"SetGlobalKeyMapPrefix": {"textK", "seqK", "commentK", "attrK", "directiveK", "procinstK", "targetK", "instK"},
-	"assign_JsonUseNumber": {"JsonUseNumber"},
+	"assign_JsonUseNumber":  {"JsonUseNumber"},
 }
 
 // the flag a toggle setter toggles (argument-less form)
@@ -267,8 +267,14 @@ func battery() string {
 	}
 	doc := []byte(`<Doc A-b="1" x=" v "><It-em id="7">  12 </It-em><It-em>true<!--c--></It-em><e/><t>a&amp;b &lt;</t>tail</Doc>`)
 	rec("NewMapXml", func() string { m, err := mxj.NewMapXml(doc); return canon(map[string]interface{}(m)) + fmt.Sprint(err) })
-	rec("NewMapXmlCast", func() string { m, err := mxj.NewMapXml(doc, true); return canon(map[string]interface{}(m)) + fmt.Sprint(err) })
-	rec("NewMapXmlSeq", func() string { m, err := mxj.NewMapXmlSeq(doc); return canon(map[string]interface{}(m)) + fmt.Sprint(err) })
+	rec("NewMapXmlCast", func() string {
+		m, err := mxj.NewMapXml(doc, true)
+		return canon(map[string]interface{}(m)) + fmt.Sprint(err)
+	})
+	rec("NewMapXmlSeq", func() string {
+		m, err := mxj.NewMapXmlSeq(doc)
+		return canon(map[string]interface{}(m)) + fmt.Sprint(err)
+	})
 	mv := mxj.Map{"doc": map[string]interface{}{"-a": "x<y", "#text": "t&", "k": []interface{}{"1", nil, map[string]interface{}{"z": ""}}, "n": 2.5}}
 	rec("Xml", func() string { b, err := mv.Xml(); return string(b) + fmt.Sprint(err) })
 	rec("XmlIndent", func() string { b, err := mv.XmlIndent("", " "); return string(b) + fmt.Sprint(err) })
